@@ -77,6 +77,7 @@ type keyTrack struct {
 	mgr     *LockManager
 	wakeDue bool // a hold ended or lost depth since the head waiter was last found inadmissible
 	wakeByDeparture bool // ... or (only) the former head of the queue left without a grant
+	endByExpiry     bool // the last hold that ended on this key ended by expiry
 }
 
 func (m *Monitor) String() string { return "monitor" }
@@ -747,6 +748,9 @@ func (ms *monitorState) apply(kt *keyTrack, ac *action, o *Outcome, after *MKey,
 		w.probe("cs_timeout")
 	case "reclaim":
 	}
+	if after.locked() < kt.mk.locked() {
+		kt.endByExpiry = ac.name == "expire"
+	}
 	ms.bookHolds(kt, after, ptrs, now, false)
 }
 
@@ -949,6 +953,10 @@ func (ms *monitorState) onReply(r *ReqRec, rep *Reply) {
 		return
 	}
 	if rt.termSeen {
+		if rep.Result == protocol.RESULT_TIMEOUT && r.Op.Cmd == protocol.COMMAND_LOCK && r.Op.TFlag&tfAck == 0 {
+			// C05: once a queued request has been granted or cancelled its timeout can no longer fire
+			ms.violate("C05", "timeout_after_terminal_reply", "request %s was answered TIMEOUT after it had already been answered (granted or cancelled first): its wait timeout was still armed", r)
+		}
 		return // C03's final check reports extra replies
 	}
 	rt.termSeen = true
@@ -1044,6 +1052,16 @@ func (ms *monitorState) onReply(r *ReqRec, rep *Reply) {
 		}
 	}
 	if rt.attributed && !rt.queuedAt.IsZero() {
+		if rep.Result == protocol.RESULT_TIMEOUT {
+			// C05: a queued request is answered TIMEOUT by its timeout and by nothing else; here no
+			// timeout was seen to remove it from the queue (its record still stands there, or it
+			// holds the key)
+			if el, t := ms.w.now().Sub(rt.queuedAt), timeoutDur(&r.Op); el+msSlack(r.Op.TFlag&tfMs != 0) < t {
+				ms.violate("C05", "timeout_early", "request %s (timeout %v) was answered TIMEOUT %v after it was queued", r, t, el)
+			} else {
+				ms.violate("C05", "timeout_answer_without_timeout", "request %s was answered TIMEOUT %v after it was queued although it was not removed from the queue by its timeout at that moment", r, el)
+			}
+		}
 		ms.violate("C04", "queued_request_answered_without_cause", "request %s was queued and then answered (result %d) without a grant, timeout or cancellation being observed", r, rep.Result)
 		return
 	}
@@ -1219,6 +1237,10 @@ func (ms *monitorState) onIdle() {
 					class = "lost_wakeup_after_head_waiter_left"
 				}
 				ms.violate("C04", class, "key %d db %d at rest since %v: head queued request %x is admissible but not granted: %s", keyIndex(id.key), id.db, now.Sub(kt.suspAt), kt.mk.Waiters[0].Req[1:7], sig)
+				if class == "lost_wakeup" && kt.endByExpiry {
+					// C06: when a hold expires its capacity is freed and the queue served exactly as after an unlock
+					ms.violate("C06", "queue_not_served_after_expiry", "key %d db %d: the last hold that ended on the key ended by expiry, and %v later the head queued request %x is admissible but not granted: %s", keyIndex(id.key), id.db, now.Sub(kt.suspAt), kt.mk.Waiters[0].Req[1:7], sig)
+				}
 				kt.suspAt = now.Add(24 * time.Hour)
 			} else if kt.susp != sig {
 				kt.susp, kt.suspAt = sig, now
